@@ -34,8 +34,11 @@ enum Item {
 #[derive(Clone, Debug)]
 struct Elem {
     item: Item,
-    label: &'static str, // "" = none stated (Space default)
+    label: &'static str, // "" = none stated (Space default); the label the element carries NOW
     hidden: bool,
+    /// Some(l): created carrying `l` and reclassified to `label` by the control plane after the
+    /// marker coordinate (raised when it is hidden now, lowered when it is visible now)
+    initial: Option<&'static str>,
 }
 
 #[derive(Clone, Copy, Debug, PartialEq)]
@@ -65,7 +68,7 @@ fn population(rng: &mut Rng, shape: Shape, ceiling: &'static str, classes: &[&'s
         let w1 = *rng.pick(&WORDS);
         let w2 = *rng.pick(&WORDS);
         v.push(Elem { item: Item::Concept { ty, name: format!("{w1} {w2} {i}"), alt: format!("{} {} {i}", rng.pick(&WORDS), rng.pick(&WORDS)), rank: rng.range(0, 9) },
-                      label, hidden: hides("concept", label) });
+                      label, hidden: hides("concept", label), initial: None });
     }
     let persons: Vec<usize> = (0..nc).filter(|i| i % 3 != 2).collect();
     let prefs: Vec<usize> = (0..nc).filter(|i| i % 3 == 2).collect();
@@ -80,8 +83,11 @@ fn population(rng: &mut Rng, shape: Shape, ceiling: &'static str, classes: &[&'s
         // a tuple is at least as restricted as what it relates
         let own = *rng.pick(&labels);
         let label = [own, v[s].label, v[o].label].into_iter().max_by_key(|l| label_rank(l)).unwrap();
-        let hidden = hides("proposition", label) || v[s].hidden || v[o].hidden;
-        v.push(Elem { item: Item::Prop { subj: s, obj: o }, label, hidden });
+        // mostly a tuple is hidden with what it relates; sometimes it stays visible on its own label
+        // while an endpoint is hidden (a reference that leads to an element the reader may not read)
+        let (label, hidden) = if rng.chance(1, 4) { (own, hides("proposition", own)) }
+                              else { (label, hides("proposition", label) || v[s].hidden || v[o].hidden) };
+        v.push(Elem { item: Item::Prop { subj: s, obj: o }, label, hidden, initial: None });
     }
     let props: Vec<usize> = (0..v.len()).filter(|i| matches!(v[*i].item, Item::Prop { .. })).collect();
     let ne = 1 + rng.below(3) as usize;
@@ -89,7 +95,7 @@ fn population(rng: &mut Rng, shape: Shape, ceiling: &'static str, classes: &[&'s
     for i in 0..ne {
         let label = *rng.pick(&labels);
         v.push(Elem { item: Item::Evidence { payload: format!("{} {} note {i}", rng.pick(&WORDS), rng.pick(&WORDS)), alt: format!("{} memo {i}", rng.pick(&WORDS)) },
-                      label, hidden: hides("evidence", label) });
+                      label, hidden: hides("evidence", label), initial: None });
     }
     let na = rng.below(4) as usize;
     for _ in 0..na {
@@ -98,20 +104,36 @@ fn population(rng: &mut Rng, shape: Shape, ceiling: &'static str, classes: &[&'s
         let by = *rng.pick(&persons);
         let ev = e0 + rng.below(ne as u64) as usize;
         // the engine joins the cited Evidence's label onto the Assertion at commit
-        let label = [v[ev].label, ""].into_iter().max_by_key(|l| label_rank(l)).unwrap();
+        // ... and it is labelled at least as high as everything it is about, so that a claim about
+        // hidden things is hidden by its own label
+        let label = [v[ev].label, v[p].label, v[by].label, ""].into_iter().max_by_key(|l| label_rank(l)).unwrap();
         let label = if label_rank(label) <= 1 { "" } else { label };
         let hidden = hides("assertion", label) || v[p].hidden || v[by].hidden || v[ev].hidden;
-        v.push(Elem { item: Item::Assertion { prop: p, by, ev, conf: (1 + rng.below(9)) as f64 / 10.0 }, label, hidden });
+        v.push(Elem { item: Item::Assertion { prop: p, by, ev, conf: (1 + rng.below(9)) as f64 / 10.0 }, label, hidden, initial: None });
+    }
+    // control-plane reclassification after the marker coordinate: what is hidden now was written
+    // readable (raised since), what is visible now was written secret (lowered since)
+    for e in v.iter_mut() {
+        if matches!(e.item, Item::Concept { .. } | Item::Prop { .. }) && rng.chance(1, 3) {
+            if e.hidden { e.initial = Some("public"); }
+            else if !e.label.is_empty() { e.initial = Some("secret"); }
+        }
     }
     v
+}
+
+/// Whether some visible tuple relates an element the reader may not read (then no restricted clone
+/// exists: the tuple cannot be written without its endpoint).
+fn has_dangling(pop: &[Elem]) -> bool {
+    pop.iter().any(|e| match e.item { Item::Prop { subj, obj } => !e.hidden && (pop[subj].hidden || pop[obj].hidden), _ => false })
 }
 
 /// A fixed population for the SEARCH over-fetch window: six hidden Concepts that outrank the one
 /// visible Concept for the term "delta".
 fn starvation_population() -> Vec<Elem> {
-    let mut v = vec![Elem { item: Item::Concept { ty: "Person", name: "delta anchor visible one".into(), alt: "delta anchor visible one".into(), rank: 1 }, label: "public", hidden: false }];
+    let mut v = vec![Elem { item: Item::Concept { ty: "Person", name: "delta anchor visible one".into(), alt: "delta anchor visible one".into(), rank: 1 }, label: "public", hidden: false, initial: None }];
     for i in 0..6 {
-        v.push(Elem { item: Item::Concept { ty: "Person", name: format!("delta delta h{i}"), alt: format!("omega omega h{i}"), rank: 2 }, label: "secret", hidden: true });
+        v.push(Elem { item: Item::Concept { ty: "Person", name: format!("delta delta h{i}"), alt: format!("omega omega h{i}"), rank: 2 }, label: "secret", hidden: true, initial: None });
     }
     v
 }
@@ -128,6 +150,8 @@ fn kind_of(item: &Item) -> anda_kip::ElementKind {
 struct Built {
     nexus: CognitiveNexus,
     ids: BTreeMap<usize, ElementId>, // logical index -> id in this store
+    absent: BTreeMap<usize, String>,  // a never-written id of the right kind for elements this store lacks
+    marker: u64,                      // Space sequence after the population was written, before reclassification
 }
 
 /// Builds one store: `include(i)` says which logical elements exist here, `perturb` swaps the
@@ -137,8 +161,9 @@ async fn build(name: &str, pop: &[Elem], include: &dyn Fn(usize) -> bool, pertur
     let owner = nexus.system_session();
     let mut ids: BTreeMap<usize, ElementId> = BTreeMap::new();
     let mut counters: BTreeMap<String, u64> = BTreeMap::new();
+    let mut absent: BTreeMap<usize, String> = BTreeMap::new();
     for (i, e) in pop.iter().enumerate() {
-        if !include(i) { continue; }
+        if !include(i) { absent.insert(i, ElementId::new(kind_of(&e.item), 999).to_string()); continue; }
         let alt = perturb && e.hidden;
         let mut params = json!({});
         let cmd = match &e.item {
@@ -169,11 +194,20 @@ async fn build(name: &str, pop: &[Elem], include: &dyn Fn(usize) -> bool, pertur
         // the element just written really is the one with the next row id of its kind
         if nexus.store.get_element(id).await.is_err() { return Err(format!("id bookkeeping lost at {i}: {id}")); }
         ids.insert(i, id);
-        if !e.label.is_empty() && !matches!(e.item, Item::Assertion { .. }) {
-            owner.classify(SPACE, id, e.label).await.map_err(|err| format!("classify {id} {}: {err:?}", e.label))?;
+        let at_creation = e.initial.unwrap_or(e.label);
+        if !at_creation.is_empty() {
+            owner.classify(SPACE, id, at_creation).await.map_err(|err| format!("classify {id} {at_creation}: {err:?}"))?;
         }
     }
-    Ok(Built { nexus, ids })
+    let marker = nexus.store.get_space(SPACE).await.map_err(|e| format!("{e:?}"))?.seq;
+    for (i, e) in pop.iter().enumerate() {
+        let (Some(id), Some(was)) = (ids.get(&i), e.initial) else { continue };
+        let now_label = if e.label.is_empty() { "internal" } else { e.label };
+        if was != now_label {
+            owner.classify(SPACE, *id, now_label).await.map_err(|err| format!("reclassify {id} {was}->{now_label}: {err:?}"))?;
+        }
+    }
+    Ok(Built { nexus, ids, absent, marker })
 }
 
 async fn authorize_p(nexus: &CognitiveNexus, shape: Shape, ceiling: &str, classes: &[&'static str]) {
@@ -248,6 +282,47 @@ fn battery(rng: &mut Rng, pop: &[Elem], s: &Built) -> Vec<(String, bool, bool)> 
         (r#"EXPORT CAPSULE ?c WHERE { ?c CONCEPT {} }"#.into(), true, false),
         (r#"EXPORT CAPSULE ?a WHERE { ?a ASSERTION {} }"#.into(), true, false),
     ];
+    // reads bound to the coordinate before the control plane reclassified: every way of reaching an
+    // element — type scan, by id, tuple endpoints, followed references, path steps, structural members
+    v.push((r#"FIND(?c.name) WHERE { ?c CONCEPT {} } AS OF SEQ @M ORDER BY ?c.name"#.into(), true, false));
+    v.push((r#"FIND(COUNT(?c)) WHERE { ?c CONCEPT {} } AS OF SEQ @M"#.into(), true, false));
+    v.push((r#"FIND(?s.name, ?o.name) WHERE { ?p PROPOSITION (?s, "prefers", ?o) } AS OF SEQ @M ORDER BY ?s.name"#.into(), true, false));
+    v.push((r#"FIND(?p) WHERE { ?p PROPOSITION (?s, "prefers", ?o) } AS OF SEQ @M"#.into(), true, false));
+    v.push((r#"FIND(?a.confidence) WHERE { ?a ASSERTION {} } AS OF SEQ @M ORDER BY ?a.confidence"#.into(), true, false));
+    v.push((r#"FIND(?e) WHERE { ?e EVIDENCE {} } AS OF SEQ @M"#.into(), true, false));
+    let pick = |rng: &mut Rng, f: &dyn Fn(&Elem) -> bool| -> Option<usize> {
+        let c: Vec<usize> = (0..pop.len()).filter(|i| f(&pop[*i])).collect();
+        if c.is_empty() { None } else { Some(*rng.pick(&c)) }
+    };
+    let concept = |e: &Elem| matches!(e.item, Item::Concept { .. });
+    let targets: Vec<Option<usize>> = vec![
+        pick(rng, &|e| concept(e) && e.hidden && e.initial.is_some()),   // raised since
+        pick(rng, &|e| concept(e) && e.hidden && e.initial.is_some()),
+        pick(rng, &|e| concept(e) && !e.hidden && e.initial.is_some()),  // lowered since
+        pick(rng, &|e| concept(e) && e.hidden && e.initial.is_none()),   // hidden all along
+        pick(rng, &|e| concept(e) && !e.hidden && e.initial.is_none()),  // visible all along
+    ];
+    for i in targets.into_iter().flatten() {
+        v.push((format!(r#"FIND(?c) WHERE {{ ?c CONCEPT {{id: "@{i}"}} }} AS OF SEQ @M"#), true, false));
+        v.push((format!(r#"FIND(?c.name, ?c.attributes.rank) WHERE {{ ?c CONCEPT {{id: "@{i}"}} }} AS OF SEQ @M"#), true, false));
+        v.push((format!(r#"FIND(?o.name) WHERE {{ ({{id: "@{i}"}}, "prefers", ?o) }} AS OF SEQ @M"#), true, false));
+        v.push((format!(r#"FIND(?s.name) WHERE {{ (?s, "prefers", {{id: "@{i}"}}) }} AS OF SEQ @M"#), true, false));
+        v.push((format!(r#"FIND(?b.name) WHERE {{ ({{id: "@{i}"}}, "prefers"{{1,2}}, ?b) }} AS OF SEQ @M"#), true, false));
+        v.push((format!(r#"FIND(?c.name) WHERE {{ ?c CONCEPT {{id: "@{i}"}} OPTIONAL {{ (?c, "prefers", ?o) }} }} AS OF SEQ @M"#), true, false));
+        v.push((format!(r#"EXPORT CAPSULE ?c WHERE {{ ?c CONCEPT {{id: "@{i}"}} }} AS OF SEQ @M"#), true, false));
+    }
+    // tuples reached by id, and through them their endpoints
+    for want_hidden in [true, false] {
+        if let Some(i) = pick(rng, &|e| matches!(e.item, Item::Prop { .. }) && e.hidden == want_hidden) {
+            v.push((format!(r#"FIND(?p) WHERE {{ ?p PROPOSITION (id: "@{i}") }} AS OF SEQ @M"#), true, false));
+            v.push((format!(r#"FIND(?s.name, ?o.name) WHERE {{ ?p PROPOSITION (id: "@{i}") ?p PROPOSITION (?s, "prefers", ?o) }} AS OF SEQ @M"#), true, false));
+        }
+    }
+    // Assertions reached by id lead to their Proposition, actor and Evidence (structural members)
+    if let Some(i) = pick(rng, &|e| matches!(e.item, Item::Assertion { .. })) {
+        v.push((format!(r#"FIND(?a) WHERE {{ ?a ASSERTION {{id: "@{i}"}} }} AS OF SEQ @M"#), true, false));
+        v.push((format!(r#"FIND(?a.proposition, ?a.asserted_by, ?a.evidence) WHERE {{ ?a ASSERTION {{id: "@{i}"}} }} AS OF SEQ @M"#), true, false));
+    }
     for hidden in [true, false, true] {
         if let Some(id) = some_id(rng, hidden) {
             v.push((format!(r#"FIND(?c) WHERE {{ ?c CONCEPT {{id: "{id}"}} }}"#), true, true));
@@ -260,8 +335,9 @@ fn battery(rng: &mut Rng, pop: &[Elem], s: &Built) -> Vec<(String, bool, bool)> 
 
 /// Logical ids: "@7" in a command is replaced by the element's id in the store it runs on.
 fn materialise(cmd: &str, b: &Built) -> Option<String> {
+    let cmd = cmd.replace("@M", &b.marker.to_string());
     let mut out = String::new();
-    let mut rest = cmd;
+    let mut rest = cmd.as_str();
     while let Some(i) = rest.find('@') {
         out.push_str(&rest[..i]);
         let digits: String = rest[i + 1..].chars().take_while(|c| c.is_ascii_digit()).collect();
@@ -270,7 +346,7 @@ fn materialise(cmd: &str, b: &Built) -> Option<String> {
         match b.ids.get(&idx) {
             Some(id) => out.push_str(&id.to_string()),
             // the element does not exist in this store: name an id that was never written
-            None => out.push_str("C-999"),
+            None => out.push_str(b.absent.get(&idx).map(|x| x.as_str()).unwrap_or("C-999")),
         }
         rest = &rest[i + 1 + digits.len()..];
     }
@@ -470,18 +546,19 @@ pub async fn main(args: &[String]) {
         let auth = AuthContext::principal(P);
         let eff = s.nexus.session(auth.clone()).effective_authority(SPACE).await.unwrap();
         let mut design_ok = true;
+        let mut mismatch: Vec<String> = Vec::new();
         let mut hidden_n = 0;
         for (i, e) in pop.iter().enumerate() {
             let el = s.nexus.store.get_element(s.ids[&i]).await.unwrap();
             let readable = eff.may_read(&el, &auth).is_some();
-            if readable == e.hidden { design_ok = false; }
+            if readable == e.hidden { design_ok = false; mismatch.push(format!("{i}:{:?}:{}:designed {} but may_read says {}", e.item, e.label, if e.hidden { "hidden" } else { "visible" }, if readable { "readable" } else { "unreadable" })); }
             if e.hidden { hidden_n += 1; }
         }
         if !design_ok {
             // the generator's idea of what is hidden must agree with may_read, or the restricted
             // clone below would not be the restriction to the readable elements
             skipped += 1;
-            skip_reasons.push(format!("design mismatch in scenario {sc} ({shape:?}, ceiling {ceiling}, classes {classes:?})"));
+            skip_reasons.push(format!("design mismatch in scenario {sc} ({shape:?}, ceiling {ceiling}, classes {classes:?}): {mismatch:?}"));
             *dist.entry("skipped:design-mismatch".into()).or_default() += 1;
             continue;
         }
@@ -489,8 +566,13 @@ pub async fn main(args: &[String]) {
         let pert = match build(&format!("c19_ni_{sc}_pert"), &pop, &|_| true, true).await { Ok(b) => b, Err(e) => { skipped += 1; skip_reasons.push(e); continue } };
         authorize_p(&pert.nexus, shape, ceiling, &classes).await;
         let hidden: Vec<bool> = pop.iter().map(|e| e.hidden).collect();
-        let abs = match build(&format!("c19_ni_{sc}_abs"), &pop, &|i| !hidden[i], false).await { Ok(b) => b, Err(e) => { skipped += 1; skip_reasons.push(e); continue } };
-        authorize_p(&abs.nexus, shape, ceiling, &classes).await;
+        let dangling = has_dangling(&pop);
+        *dist.entry(format!("restricted-clone:{}", if dangling { "none (a visible tuple relates a hidden element)" } else { "built" })).or_default() += 1;
+        *dist.entry(format!("reclassified-after-write:{}", pop.iter().filter(|e| e.initial.is_some()).count().min(3))).or_default() += 1;
+        let abs = if dangling { None } else {
+            match build(&format!("c19_ni_{sc}_abs"), &pop, &|i| !hidden[i], false).await { Ok(b) => Some(b), Err(e) => { skipped += 1; skip_reasons.push(e); continue } }
+        };
+        if let Some(abs) = &abs { authorize_p(&abs.nexus, shape, ceiling, &classes).await; }
 
         let plain = !matches!(shape, Shape::Masked | Shape::Capped);
         for (cmd, seq_free, owner_ok) in battery(&mut rng, &pop, &s) {
@@ -502,9 +584,9 @@ pub async fn main(args: &[String]) {
             *dist.entry(format!("family:{family}")).or_default() += 1;
             keys.push(format!("{shape:?}|{hidden_n}|{cmd}"));
             let describe = |what: &str, a: &Value, b: &Value, versus: &str| json!({
-                "what": what, "command": cmd, "shape": format!("{shape:?}"), "ceiling": ceiling, "classes": classes,
+                "what": what, "command": cmd, "command_on_full_store": materialise(&cmd, &s), "shape": format!("{shape:?}"), "ceiling": ceiling, "classes": classes,
                 "versus": versus, "on_full_store": a, "on_other": b, "scenario": sc,
-                "population": pop.iter().enumerate().map(|(i, e)| format!("{i}:{:?}:{}:{}", e.item, e.label, if e.hidden { "hidden" } else { "visible" })).collect::<Vec<_>>(),
+                "population": pop.iter().enumerate().map(|(i, e)| format!("{i}:{:?}:{}:{}{}", e.item, e.label, if e.hidden { "hidden" } else { "visible" }, match e.initial { Some(l) => format!(" (written as `{l}`, reclassified after the marker)"), None => String::new() })).collect::<Vec<_>>(),
             });
             if on_s != on_pert {
                 let cls = if is_search {
@@ -512,22 +594,22 @@ pub async fn main(args: &[String]) {
                 } else { "answer-depends-on-hidden-content" };
                 failures.push(describe(cls, &on_s, &on_pert, "same Principal, hidden elements carrying different content"));
             }
-            if seq_free {
-                let on_abs = answer(&abs, P, &cmd, false).await;
+            if let (true, Some(abs)) = (seq_free, abs.as_ref()) {
+                let on_abs = answer(abs, P, &cmd, false).await;
                 evaluations += 1;
                 if on_s != on_abs {
                     // separate what only the relevance score gives away from what the hit list does
                     let cls = if is_search {
-                        if answer(&s, P, &cmd, true).await == answer(&abs, P, &cmd, true).await { "search-score-depends-on-hidden" } else { "search-hits-depend-on-hidden" }
+                        if answer(&s, P, &cmd, true).await == answer(abs, P, &cmd, true).await { "search-score-depends-on-hidden" } else { "search-hits-depend-on-hidden" }
                     } else { "answer-depends-on-hidden-existence" };
                     failures.push(describe(cls, &on_s, &on_abs, "same Principal, store restricted to the readable elements"));
                 }
                 if plain && owner_ok {
-                    let owner_abs = answer(&abs, SYSTEM_PRINCIPAL, &cmd, false).await;
+                    let owner_abs = answer(abs, SYSTEM_PRINCIPAL, &cmd, false).await;
                     evaluations += 1;
                     if on_s != owner_abs {
                         let cls = if is_search {
-                            if answer(&s, P, &cmd, true).await == answer(&abs, SYSTEM_PRINCIPAL, &cmd, true).await { "search-score-depends-on-hidden" } else { "search-hits-depend-on-hidden" }
+                            if answer(&s, P, &cmd, true).await == answer(abs, SYSTEM_PRINCIPAL, &cmd, true).await { "search-score-depends-on-hidden" } else { "search-hits-depend-on-hidden" }
                         } else { "differs-from-owner-on-restricted-store" };
                         failures.push(describe(cls, &on_s, &owner_abs, "owner, store restricted to the readable elements"));
                     }
